@@ -106,6 +106,12 @@ _bin = {
 }
 
 
+# augmented assignment (x += y ...): Python tries x.__iadd__ and falls back to the binary operator; the statement
+# ["op", name, refs, "inplace"] binds the value the assignment leaves in x and must not disturb other references
+INPLACE = {"add": o.iadd, "sub": o.isub, "mul": o.imul, "truediv": o.itruediv, "floordiv": o.ifloordiv, "mod": o.imod,
+           "pow": o.ipow, "lshift": o.ilshift, "rshift": o.irshift, "and": o.iand, "or": o.ior, "xor": o.ixor}
+
+
 def _pre_bin(name):
     def pre(a, cfg, ts):
         x, y = a
@@ -212,6 +218,13 @@ defop("declbits", lambda ns, a, b, c: ns.rt.LinComb.from_bits([ns.bo.LinCombBool
       ["I", "I", "I"], lambda a, cfg, ts: all(v in (0, 1) for v in a), weight=0.3)
 defop("blist", lambda ns, a, b, c: [a, b, c], ["B", "B", "B"], weight=0.4)
 defop("from_bits", lambda ns, l: ns.rt.LinComb.from_bits(l) if len(l) else ns.rt.LinComb.ZERO, ["L"])
+def _from_bits_iterable(ns, l, k):
+    # from_bits takes "an array of bits": the same bits handed over as a tuple, generator, iterator, reversed view or map
+    forms = [lambda: tuple(l), lambda: (x for x in l), lambda: iter(l), lambda: reversed(l[::-1]), lambda: map(lambda x: x, l)]
+    return ns.rt.LinComb.from_bits(forms[k % len(forms)]())
+
+
+defop("from_bits_it", _from_bits_iterable, ["L", "i"], lambda a, cfg, ts: len(a[0]) > 0, weight=0.4, params={1: ("k", 0, 4)})
 defop("bit", lambda ns, l, k: l[k % len(l)], ["L", "i"], lambda a, cfg, ts: len(a[0]) > 0, params={1: ("k", 0, 40)})
 defop("val", lambda ns, x: x.val(), ["IBF"], weight=0.5)
 defop("ite", lambda ns, c, x, y: ns.br.if_then_else(c, x, y), ["B", "IBFi", "IBFi"], weight=2.0)
@@ -325,7 +338,10 @@ class Machine:
             elif kind == "op":
                 opd = OPS[stmt[1]]
                 args = [self.vals[i] for i in stmt[2]]
-                new = self.bind(opd.fn(ns, *args))
+                if len(stmt) > 3 and stmt[3] == "inplace":
+                    new = self.bind(INPLACE[stmt[1]](*args))
+                else:
+                    new = self.bind(opd.fn(ns, *args))
             elif kind == "ignore":
                 ns.rt.ignore_errors(stmt[1])
                 new = []
@@ -595,6 +611,9 @@ class Gen:
             return None
         ts = "".join(m.types[i] for i in refs)
         stmt = ["op", op.name, refs]
+        if op.name in INPLACE and ts[0] in "IBF" and draw(st.integers(0, 7)) == 0:
+            stmt.append("inplace")
+            self.labels.add("inplace")
         out = m.exec_stmt(stmt)
         self.labels.add("op:" + op.name)
         self.labels.add("kinds:" + op.name + ":" + ts)
